@@ -8,7 +8,9 @@ def handle (line : String) : String :=
   let toks := (line.trimAscii.toString.splitOn " ").filter (· ≠ "")
   match toks with
   | [] => "err empty"
-  | fn :: rest =>
+  | fn0 :: rest =>
+    -- '!' (forked) and '^' (guard pages) only concern the implementation side of the protocol
+    let fn := String.ofList (fn0.toList.dropWhile (fun c => c == '!' || c == '^'))
     match parseArgs rest [] with
     | none => "err parse"
     | some args =>
